@@ -144,3 +144,9 @@ Theorem C18_source_translated :
 Proof. exact source_translated. Qed.
 Print Assumptions C18_source_translated.
 
+
+Theorem C18_loops_is_source :
+  forall (NN : Num) (c : cfg NN), gen_loops NN c = loops_of (steps NN c) (inner NN c).
+Proof. exact loops_is_source. Qed.
+Print Assumptions C18_loops_is_source.
+
